@@ -82,3 +82,12 @@ Theorem C08_empty_first_address_refuted :
     P x = false /\ In (OFwd N x) (map (o_out N) (snd (run N N.eqb 0%N P hook None ins))).
 Proof. exact empty_first_address_refuted. Qed.
 Print Assumptions C08_empty_first_address_refuted.
+
+(* The tree before the fix bbf8060 (documentation of the finding): with well-formed inputs the old Feed
+   forwarded to a destination the policy rejects when the hook rewrote to the empty string. *)
+Theorem C08_old_refuted :
+  exists (P : N -> bool) (hook : N -> hookres N) ins x,
+    Forall (wf_input N 0%N) ins /\ P x = false /\
+    In (OFwd N x) (map (o_out N) (snd (run_old N N.eqb 0%N P hook None ins))).
+Proof. exact old_refuted. Qed.
+Print Assumptions C08_old_refuted.
